@@ -325,7 +325,19 @@ pub fn gen_png_opts(dna: &mut Dna, payload_len: usize, edge_cases: bool) -> PngO
         _ => dna.range(6, 40),
     };
     let mut cuts = vec![];
-    for _ in 1..nchunks {
+    // "fixed small buffer" encoders: the whole payload in equal tiny chunks (the chunk count can
+    // exceed 65535 for large payloads, and the framing can outweigh the data)
+    let uniform = if dna.chance(7) { Some([1usize, 2, 3, 4, 7, 16][dna.below(6)]) } else { None };
+    if let Some(u) = uniform {
+        // more than 65535 chunks only rarely: a run the scanner rejects is re-parsed from every
+        // chunk, which is quadratic in the chunk count
+        let huge = dna.chance(15);
+        let max_chunks = if huge { 70_000 } else { 1_500 };
+        let u = u.max(payload_len / max_chunks + 1);
+        let n = payload_len / u;
+        cuts = vec![u; n];
+    }
+    for _ in 1..(if uniform.is_some() { 1 } else { nchunks }) {
         let c = match dna.below(if edge_cases { 6 } else { 4 }) {
             0 => dna.range(1, 16),
             1 => dna.range(16, 600),
@@ -387,6 +399,10 @@ pub fn wrap_png(out: &mut Vec<u8>, o: &PngOpts, stream: &[u8], plain: &[u8]) -> 
         _ => out.extend_from_slice(&o.trailing),
     }
     (start, total)
+}
+
+pub fn lookalike_pub(dna: &mut Dna, out: &mut Vec<u8>) -> &'static str {
+    lookalike(dna, out)
 }
 
 fn lookalike(dna: &mut Dna, out: &mut Vec<u8>) -> &'static str {
